@@ -85,7 +85,6 @@ func mandatoryMarshaller(input []byte) ([]byte, error) {
 	return buf.Bytes(), nil
 }
 
-// nolint:unparam
 func alpnMarshaller(input []byte) ([]byte, error) {
 	alpns := bytes.Split(input, valueDelimInternal)
 
@@ -93,6 +92,11 @@ func alpnMarshaller(input []byte) ([]byte, error) {
 	buf.Grow(len(input) + len(alpns))
 
 	for _, alpn := range alpns {
+		// an alpn-id is prefixed by its length in a single octet
+		// and must not be empty (RFC 9460 section 7.1.1)
+		if len(alpn) == 0 || len(alpn) > 255 {
+			return nil, fmt.Errorf("alpn-id %q must be 1 to 255 octets long", alpn)
+		}
 		buf.WriteByte(byte(len(alpn)))
 		buf.Write(alpn)
 	}
